@@ -552,3 +552,21 @@ def tvariance(h):
     h.check('textbook-trimmed-variance', 'r * %s == %s' % (frac(tot), num), r=r, **env)
     sd = h.call(h.get(F + '::tstd'), x, None, k, clip)
     h.check('tstd-is-the-root-of-tvariance', 'sd >= 0 and sd * sd == r', sd=sd, r=r)
+
+
+@contract('C18/impose_tmean', ['C18'], F + '::impose_tmean', samples=200)
+def impose_tmean(h):
+    """impose_tmean(m, x, k=, clip=) on four unweighted points: one common shift after which the trimmed / winsorized mean is
+    the requested one"""
+    n = 4
+    k, clip = h.choice('trim', [t for t in TRIMS if sum(_trim_weights(4, t[0], t[1])) != 0])
+    x = h.vec('x', n)
+    m = h.real('target')
+    y = h.call(h.get(F + '::impose_tmean'), m, x, None, k, clip)
+    env = {'y%d' % i: h.ev('y[%d]' % i, y=y) for i in range(n)}
+    srt = _sorted_expr(sorted(env))
+    w = _trim_weights(n, k, clip)
+    tot = sum(w)
+    num = ' + '.join('(%d/%d) * (%s)' % (v.numerator, v.denominator, e) for v, e in zip(w, srt) if v)
+    h.check('requested-trimmed-mean-reached', 'm * (%d/%d) == %s' % (tot.numerator, tot.denominator, num), m=m, **env)
+    h.check('one-common-shift', ' and '.join('y[%d] - x[%d] == y[0] - x[0]' % (i, i) for i in range(n)), y=y, x=x)
